@@ -25,7 +25,7 @@ type ReplayResult struct {
 // replayObligation writes /verif/replays/<prop>/<obligation>/replay.json for a failed obligation and, where the
 // solver gives a (candidate) model whose inputs can be rebuilt as Go values, runs the real function on them.
 func replayObligation(vd, prop string, s *OblSummary, secs int) ReplayResult {
-	dir := filepath.Join(vd, "replays", prop, sanitize(strings.ReplaceAll(s.Name, "/", "__")))
+	dir := filepath.Join(outDir(), "replays", prop, sanitize(strings.ReplaceAll(s.Name, "/", "__")))
 	os.RemoveAll(dir)
 	os.MkdirAll(dir, 0o755)
 	path := filepath.Join(dir, "replay.json")
